@@ -1613,8 +1613,24 @@ def _aliases(fn):
             for x in _walk_no_defs(h):
                 if isinstance(x, ast.Name) and x.id == k and isinstance(x.ctx, ast.Load):
                     ok = True
-        if ok and not any(isinstance(x, (ast.ListComp, ast.GeneratorExp, ast.SetComp, ast.DictComp)) and any(isinstance(y, ast.Name) and y.id == k for y in ast.walk(x)) for h in heads if h is not None for x in ast.walk(h)):
+        if ok and not any(y.id == k for h in heads if h is not None for y in _lazily_evaluated_names(h)):
             out[k] = v
+    return out
+
+
+def _lazily_evaluated_names(node):
+    """Name nodes inside comprehensions / generator expressions that are evaluated per element or later - everything except the iterable of the first `for`, which
+    is evaluated once, at once, in the enclosing scope (a generator expression evaluates it when it is created)"""
+    out = []
+    for c in ast.walk(node):
+        if isinstance(c, (ast.ListComp, ast.GeneratorExp, ast.SetComp, ast.DictComp)):
+            parts = [c.key, c.value] if isinstance(c, ast.DictComp) else [c.elt]
+            for j, g in enumerate(c.generators):
+                parts += list(g.ifs) + ([g.iter] if j > 0 else [])
+            for part in parts:
+                out += [y for y in ast.walk(part) if isinstance(y, ast.Name)]
+        elif isinstance(c, ast.Lambda):
+            out += [y for y in ast.walk(c.body) if isinstance(y, ast.Name)]
     return out
 
 
